@@ -47,7 +47,18 @@ func randOps(rnd *rand.Rand, cat *Catalog, steps int, profile string, honest boo
 	openU := map[string][]int{} // what we believe was written to each upload
 	uRepo := map[string]string{}
 	nextU := 0
+	var pickU0 func() string
+	retired := map[string]bool{}
 	pickU := func() string {
+		for i := 0; i < 8; i++ {
+			if u := pickU0(); !retired[u] {
+				return u
+			}
+		}
+		return cat.Uploads[len(cat.Uploads)-1]
+	}
+	_ = pickU
+	pickU0 = func() string {
 		// mostly a session that exists, mostly the latest
 		if nextU > 0 && rnd.Intn(10) != 0 {
 			if rnd.Intn(3) != 0 {
@@ -58,7 +69,7 @@ func randOps(rnd *rand.Rand, cat *Catalog, steps int, profile string, honest boo
 		return cat.Uploads[len(cat.Uploads)-1-rnd.Intn(2)]
 	}
 	repoOfU := func(u string) string {
-		if r, ok := uRepo[u]; ok && rnd.Intn(8) != 0 {
+		if r, ok := uRepo[u]; ok && (genRetireAfterCommit || rnd.Intn(8) != 0) {
 			return r
 		}
 		return repo()
@@ -213,6 +224,9 @@ func randOps(rnd *rand.Rand, cat *Catalog, steps int, profile string, honest boo
 				}
 			}
 			ops = append(ops, Op{Op: "Commit", R: repoOfU(u), U: u, DD: dd})
+			if genRetireAfterCommit {
+				retired[u] = true
+			}
 		case k < 51:
 			u := pickU()
 			ops = append(ops, Op{Op: "Cancel", R: repoOfU(u), U: u})
@@ -286,3 +300,7 @@ type honestUp struct {
 }
 
 func pick3(rnd *rand.Rand) int { return []int{0, 0, 1, 2, 3, 5}[rnd.Intn(6)] }
+
+// genRetireAfterCommit: a session is not used again once Commit has been called on its
+// writer (a client writer is finished by Commit; only ocimem's Buffer can go on).
+var genRetireAfterCommit bool
